@@ -2,7 +2,8 @@
   wp `enc2` — an n×n byte matrix packed into ONE natural number, eight bits per cell (cell value + 1, so the
   empty marker -1 is 0 and the cleared matrix is the number 0).  `Get`/`Set` are shifts, `%` and `xor` — the
   operations the kernel evaluates on GMP numbers — so that the function-pattern loops of the encoder
-  (Proofs/QREncFuncGen.lean) run in the kernel in linear time for every version.
+  (Proofs/QREncFuncGen.lean) run in the kernel in linear time for every version (version 40: 1.3 s).
+  The comparison of the result with the standard's modules is in Proofs/QREncFuncCheck.lean.
 -/
 import Gzx.Proofs.QREncFuncGen
 namespace Gzx.QREnc
@@ -28,27 +29,5 @@ def pSet (n : Nat) (M : Nat) (x y v : Int) : Res Nat :=
 
 /-- the packed interface (a value outside -1..254 is refused: the embed loops never write one) -/
 def pkI (n : Nat) : MI Nat := ⟨pGet n, pSet n, fun _ => n, fun _ => n⟩
-
-/-- all cells of the packed matrix agree with the standard's tag cells -/
-def pcheck (v : Nat) (M : Nat) : Bool :=
-  let n := dimension v
-  (List.range n).all (fun y => (List.range n).all (fun x => pcell n M x y == tagCell v x y))
-
-/-- the per-version kernel check: the packed run succeeds and leaves the standard's modules -/
-def PFuncOK (v : Nat) : Prop :=
-  ∃ M, gFunctionTags (pkI (dimension v)) v 0 = .ok M ∧ pcheck v M = true
-
-def pfuncCheck (v : Nat) : Bool :=
-  match gFunctionTags (pkI (dimension v)) v 0 with
-  | .ok M => pcheck v M
-  | .error _ => false
-
-theorem pfuncOK_of_check {v : Nat} (h : pfuncCheck v = true) : PFuncOK v := by
-  unfold pfuncCheck at h
-  unfold PFuncOK
-  generalize hM : gFunctionTags (pkI (dimension v)) v 0 = r at h ⊢
-  cases r with
-  | error e => cases h
-  | ok M => exact ⟨M, rfl, h⟩
 
 end Gzx.QREnc
